@@ -399,6 +399,9 @@ class ModuleVistor(NodeVisitor):
             if ob is None:
                 current.report("cannot resolve re-exported name :"
                                         f'{modname}.{origin_name}', thresh=1)
+            elif ob.parent is None:
+                # A root module or package is documented on its own, there is nothing it could be moved out of.
+                current.report(f"cannot re-export the root object {ob.fullName()!r}", thresh=1)
             else:
                 if origin_module.all is None or origin_name not in origin_module.all:
                     self.system.msg(
